@@ -325,6 +325,27 @@ CHECKS = {
         "draw; colors=True is only combined with a z coordinate or c variable.",
         "DESIGN.md 3/C17",
     ),
+    "C18": (
+        "exploration",
+        "exhaustive enumeration of dimension-to-property assignments x dataset shapes x NaN patterns x modes; drawn artists read back and compared with a numpy recomputation",
+        "Datasets whose y values encode their own coordinates are plotted by the "
+        "real infiniplot for every injective assignment of up to three (and a "
+        "deterministic share of four) dimensions to the eight mappable "
+        "properties, with NaN points, slices and whole coordinates, fused "
+        "dimensions, explicit orders, unmapped dimensions and "
+        "join_across_missing. From the returned axes every Line2D is decoded "
+        "back to its slice: each slice with data exactly once, in the panel of "
+        "its row / column coordinate, exactly its x and y values; equal mapped "
+        "coordinates share the style value and different ones differ while "
+        "distinct defaults remain; panel titles name the coordinate. "
+        "Aggregation (median / mean x quantile / std / stderr x bands / bars), "
+        "histogram mode (bins None / int / edges, density / counts) and heat-map "
+        "mode (palette on / off, row / col, aggregated) are compared with numpy; "
+        "the input dataset must be unchanged.",
+        "All-NaN dataset excluded; without a palette only equality / grey / "
+        "layout of the heat-map colours are checked; legends are not inspected.",
+        "DESIGN.md 3/C18",
+    ),
 }
 
 NOT_BUILT = "check not built yet in this session (design in DESIGN.md section 3)"
